@@ -172,7 +172,7 @@ theorem float_roundtrip' (nc : NumCodec) (hnc : NcGood nc) (how : Narrow) (f : F
   · exact (float_nonfinite nc how f hf b hb hfin).1
   · obtain ⟨h1, h2⟩ := widen_finite f hf b hb hfin
     rw [floatToMeta_finite nc f hf b hfin]
-    simp only [metaToFloat, hnc.roundTrip _ h1 h2, Option.map_some, narrow_widen how f hf b hb hfin]
+    simp only [metaToFloat, hnc.roundTrip _ h1 h2, Option.bind_some, narrow_widen how f hf b hb hfin, hfin, if_true]
 
 
 theorem validUtf8_ascii (s : List Nat) (h : ∀ b ∈ s, b < 128) : validUtf8 s = true := by
